@@ -783,9 +783,10 @@ func (detector *trzszDetector) detectTrzsz(output []byte, tunnel bool) ([]byte, 
 		tmuxPrefix = string(tmuxMatch[1])
 	}
 
-	if len(subOutput) > 40 {
+	// scroll-back of a finished transfer: look at everything after the trigger itself
+	if len(subOutput) > len(match[0]) {
 		for _, s := range []string{"#CFG:", "Saved", "Cancelled", "Stopped", "Interrupted"} {
-			if bytes.Contains(subOutput[40:], []byte(s)) {
+			if bytes.Contains(subOutput[len(match[0]):], []byte(s)) {
 				return output, nil
 			}
 		}
